@@ -74,7 +74,7 @@ def main():
     if which in ("seeded", "both"):
         dirs += sorted(glob.glob(os.path.join(VERIF, "seeded", "C???")))
     if which in ("seeded_simple", "both"):
-        dirs += sorted(glob.glob(os.path.join(VERIF, "seeded_simple", "[STUWXZ]??_*")))
+        dirs += sorted(glob.glob(os.path.join(VERIF, "seeded_simple", "[ASTUWXZ]??_*")))
     dirs = [d for d in dirs if not only or os.path.basename(d) in only]
     print("changes:", len(dirs), flush=True)
     reg, caught, none = [], 0, []
